@@ -50,11 +50,19 @@ enum Sc {
 #[derive(Clone, Debug, PartialEq)]
 struct Refusing {
     room: usize,
+    /// take what fits (like a cursor over a fixed buffer) instead of all or nothing per call
+    partial: bool,
     data: Vec<u8>,
 }
 
 impl std::io::Write for Refusing {
     fn write(&mut self, buf: &[u8]) -> std::io::Result<usize> {
+        if self.partial && self.room > 0 && !buf.is_empty() {
+            let n = buf.len().min(self.room);
+            self.room -= n;
+            self.data.extend_from_slice(&buf[..n]);
+            return Ok(n);
+        }
         // all or nothing per call
         if buf.len() > self.room {
             return Err(std::io::Error::new(std::io::ErrorKind::WriteZero, "output is full"));
@@ -105,12 +113,12 @@ impl push::push_vm::push_io::HasStdout for TinyState {
 }
 
 const CUSTOM_INSTRS: usize = 6;
-const CUSTOM_CELLS: usize = CUSTOM_INSTRS * 4 * 3 * 8;
+const CUSTOM_CELLS: usize = CUSTOM_INSTRS * 4 * 3 * 16;
 
 fn exec_custom(instr: u8, ints: usize, bools: usize, room: usize, value_seed: u64, obs: &mut Obs) -> Vec<Violation> {
     use push::instruction::printing::{Print, PrintChar, PrintLn, PrintString};
     let mut g = Xo::from_seed(value_seed);
-    let mut st = TinyState { int: push::push_vm::stack::Stack::default(), bool: push::push_vm::stack::Stack::default(), out: Refusing { room, data: Vec::new() } };
+    let mut st = TinyState { int: push::push_vm::stack::Stack::default(), bool: push::push_vm::stack::Stack::default(), out: Refusing { room: room % 8, partial: room >= 8, data: Vec::new() } };
     for _ in 0..ints {
         let _ = st.int.push(gen_i64(&mut g));
     }
@@ -142,7 +150,9 @@ fn exec_custom(instr: u8, ints: usize, bools: usize, room: usize, value_seed: u6
                     "error-state-unchanged",
                     format!("error-state:custom-state:{name}"),
                     format!(
-                        "{name} on a user-defined state (output with room for {room} bytes) failed ({}), but the state handed back differs: before int {:?} bool {:?} output {:?} | carried int {:?} bool {:?} output {:?}",
+                        "{name} on a user-defined state (output with room for {} bytes{}) failed ({}), but the state handed back differs: before int {:?} bool {:?} output {:?} | carried int {:?} bool {:?} output {:?}",
+                        room % 8,
+                        if room >= 8 { ", taking what fits" } else { ", all or nothing per write" },
                         e.error(),
                         pre.int,
                         pre.bool,
